@@ -36,7 +36,7 @@ def numeric_check(doc, model):
         try:
             vals, dsi, classes, chosen, si, complete = G.ref_solve(doc, 1000 + k)
             mags = G.ref_magnitudes(doc, si, dsi, classes)
-        except (OverflowError, ZeroDivisionError):
+        except (OverflowError, ZeroDivisionError, G.Tie):
             continue
         if not complete:
             bad.append(('harness: the reference semantics could not evaluate the generated document', {}))
@@ -197,7 +197,7 @@ def run(ctx):
                 'changes from document to document), assignments over + - * / ** exp, ODEs, '
                 'derivatives on right-hand sides, initial-value constants, cmeta ids; every variable compared at 3 random '
                 'states; the 9x9x4 two-component interface documents in both orientations (quick: 60 of 324); the same document under two meanings of uv_x / ut_x '
-                'loaded in ONE process in the order a, b, a; number-free equations; a stratum with floor / ceiling / rem '
+                'loaded in ONE process in the order a, b, a; number-free equations; piecewise definitions with conditions on variables received through unit-changing connections; a stratum with floor / ceiling / rem '
                 '(known finding F14); non-trivial = has a unit-changing connection')
     ctx.trusted += ['the reference semantics reads every number and variable of an equation as a physical quantity '
                     '(value x scale of its unit); for equations whose operands share one unit per dimension this is the '
